@@ -132,6 +132,8 @@ def _match_value(pat, val):
         return isinstance(val, str) and re.fullmatch(pat["regex"], val) is not None
     if isinstance(pat, dict) and "any_of" in pat:
         return val in pat["any_of"]
+    if isinstance(pat, dict) and "all_match" in pat:
+        return isinstance(val, list) and all(isinstance(v, str) and re.fullmatch(pat["all_match"], v) for v in val)
     if isinstance(pat, dict) and "subset_of" in pat:
         return isinstance(val, list) and set(val) <= set(pat["subset_of"])
     return pat == val
